@@ -1,7 +1,12 @@
 /-
-C13 (server side) — the clauses about server rendering with suspense.
+C13 (server side) — the clauses about server rendering with suspense: the counters and when the blocking
+render returns (5), streaming emits every fragment at most once (6), parents first (7), an emitted fragment
+is final (8), and the page assembled from all fragments shows what the blocking render shows (9).
 
-Model: `SycVerif/Model/Assr.lean`; reachable worlds as in `Props/C12Assr.lean` (`Reach`, `ReachB`, `ReachS`).
+Model: `SycVerif/Model/Assr.lean`; reachable worlds as in `Props/C12Assr.lean`: `Reach m vs w` = the first
+build followed by `step`s and `sendReady`s in any order (`ReachB.reach`, `ReachS.reach`: the runs of the
+driver are special cases). Everything holds for EVERY view and EVERY sequence of events.
+The vocabulary is introduced section by section; definitions are in `Lemmas/Assr.lean`.
 -/
 import SycVerif.Lemmas.Assr
 namespace SycVerif.Assr
@@ -156,5 +161,209 @@ theorem C13_stream_sent_iff_emitted (vs : AVs) (es : List Ev) (k : Nat) (hk : 1 
   · rintro (h | h)
     · exact sr.2.2.2.2.1 _ (sp.2.1 k h).2
     · exact sr.2.2.2.2.2 k h
+
+/-! ### 7. streaming: a parent's fragment goes out before its children's -/
+
+/-- Whenever `sendReady` emits boundary `k` (in world `w'`, the world just before the emission), `k` is one
+of the boundaries the stream waits for, exists, is unsent and not loading, and its parent — if it has
+one — has ALREADY been sent. -/
+theorem C13_stream_parent_first (fuel : Nat) (w : World) (w' : World) (k : Nat)
+    (h : (w', k) ∈ sendTrace fuel w) :
+    k ∈ w'.polled ∧ ∃ b, w'.st.bds[k - 1]? = some b ∧ b.sent = false ∧
+      loading w'.st (w'.st.bds.length + 1) k = false ∧
+      ∀ p, b.parent = some p → sentI w' (p - 1) = true :=
+  mem_readyList (sendTrace_mem_ready fuel w _ h).1
+
+/-- In every reachable world a boundary's parent has a smaller key (and the keys the stream waits for are
+keys of existing boundaries). -/
+theorem C13_parent_smaller {m vs w} (h : Reach m vs w) :
+    (∀ k b p, 1 ≤ k → w.st.bds[k - 1]? = some b → b.parent = some p → 1 ≤ p ∧ p < k) ∧
+    (∀ k ∈ w.polled ++ w.st.waiting, 1 ≤ k ∧ k ≤ w.st.bds.length) := by
+  refine ⟨fun k b p hk hb hp => ?_, fun k hk => ?_⟩
+  · have := h.inv.parents (k - 1) b hb p hp; omega
+  · have hb := h.inv.bdsLen
+    rcases List.mem_append.mp hk with hk | hk
+    · have := h.winv.pollOK k hk; omega
+    · have := h.inv.waitOK k hk; omega
+
+/-- Along a whole streaming run of the driver, the fragment of a boundary's parent is EARLIER in the output
+than the boundary's own: if `k` is emitted and has parent `p` (in the final world; parents never change),
+then `p` is among the keys emitted before `k`. -/
+theorem C13_stream_parent_before (vs : AVs) (es : List Ev) (l1 l2 : List Nat) (k : Nat)
+    (hL : (streamAll vs es).2 = l1 ++ k :: l2) (b : Bd) (p : Nat)
+    (hb : (streamAll vs es).1.st.bds[k - 1]? = some b) (hp : b.parent = some p) : p ∈ l1 := by
+  have h := streamAll_pfirst vs es
+  rw [hL] at h
+  rcases h.split p (by rw [parOf, hb]; exact hp) with h' | h'
+  · exact h'.elim
+  · exact h'
+
+/-! ### 8. a fragment, once its boundary has stopped loading, is final
+
+`Later w w'`: `w'` is `w` followed by any number of `step`s and `sendReady`s (any fuel), in any order.
+`regionStr w k` is the content of boundary `k` rendered in shell form (nested boundaries as fallbacks):
+`fragmentOf w k` is `regionStr w k` between two fixed strings (`fragmentOf_eq`). -/
+
+/-- If boundary `k` exists and is not loading in a reachable world `w`, then its fragment is the same in
+every later world: nothing registered under `k` is left (no pending body, no guard), none will be, and the
+region of `k` outside nested boundaries does not change any more. -/
+theorem C13_fragment_stable {m vs w w'} (h : Reach m vs w) {k : Nat} (hk : 1 ≤ k ∧ k ≤ w.st.bds.length)
+    (hl : loading w.st (w.st.bds.length + 1) k = false) (hlater : Later w w') :
+    fragmentOf w' k = fragmentOf w k ∧
+    (∀ p ∈ w'.st.pend, p.ctx ≠ some k) ∧ (∀ g ∈ w'.st.guards, g.2 ≠ k) := by
+  have := region_stable h.winv (quiet_of_not_loading h.inv hk hl) hlater
+  refine ⟨by rw [fragmentOf_eq, fragmentOf_eq, this.2], fun p hp => this.1.2.2.1 p (by simpa using hp),
+    this.1.2.2.2⟩
+
+/-- the facts behind it: in a reachable world, a hole in the region of `k` (outside nested boundaries)
+belongs to a pending body registered under `k`, and a resource shown there that has not delivered holds a
+guard of `k` -/
+theorem C13_region_registered {m vs w} (h : Reach m vs w) {k : Nat} {c : RNs}
+    (hc : findSuspList k w.tree = some c) :
+    (∀ hh, (Item.hole hh, some k) ∈ items (some k) c → ∃ p ∈ w.st.pend, p.hole = hh ∧ p.ctx = some k) ∧
+    (∀ r, (Item.res r, some k) ∈ items (some k) c → r ∈ w.st.resDone ∨ (r, k) ∈ w.st.guards) :=
+  ⟨fun _ hm => h.inv.holeCtx _ _ (findSuspList_items k w.tree none c hc _ hm),
+   fun _ hm => h.inv.resOK _ _ (findSuspList_items k w.tree none c hc _ hm)⟩
+
+/-- in particular: the fragment `sendReady` emits for `k` is the fragment of `k` in every later world (the
+stream never sends text that is out of date afterwards) -/
+theorem C13_emitted_fragment_final {m vs w} (h : Reach m vs w) (fuel : Nat) {w' w'' : World} {k : Nat}
+    (he : (w', k) ∈ sendTrace fuel w) (hlater : Later w' w'') : fragmentOf w'' k = fragmentOf w' k := by
+  have hm := sendTrace_mem_ready fuel w _ he
+  have hw' : WInv [] w' := hm.2.inv h.winv
+  obtain ⟨hpoll, b, hb, _, hload, _⟩ := mem_readyList hm.1
+  have hk1 := hw'.pollOK k hpoll
+  have hbl := hw'.inv.bdsLen
+  have hi : Inv w'.st.pend w'.st w'.tree := by simpa using hw'.inv
+  have := region_stable hw' (quiet_of_not_loading hi ⟨hk1.1, by omega⟩ hload) hlater
+  rw [fragmentOf_eq, fragmentOf_eq, this.2]
+
+/-! ### 9. what the client sees: streaming, once every fragment has arrived, shows the blocking result
+
+`visible sh st t` is the text of the page with every marker, key and wrapper dropped, where boundary `k`
+shows its content if `sh k` and the fallback otherwise (tree level; the application of the fragments to
+the real output is checked by the harness). `renderToks` cuts the rendered text into pieces
+(`renderList_toks`: the text is their concatenation), `Tok.vis` is what a piece shows. -/
+
+/-- the rendered text is the concatenation of its pieces, for both ways of rendering -/
+theorem C13_render_pieces (st : St) (how : How) (t : RNs) :
+    renderList st how t = cat ((renderToks st how t).map Tok.str) := renderList_toks st how t
+
+/-- the final rendering (sync, blocking) shows `visible` with every boundary showing its content -/
+theorem C13_final_shows (st : St) (t : RNs) :
+    (renderToks st .final t).filterMap Tok.vis = visible (fun _ => true) st t := (visibleList_final st t).symm
+
+/-- the shell rendering (of the page, or of a boundary's region in its fragment) shows `visible` with every
+(nested) boundary showing its fallback -/
+theorem C13_shell_shows (st : St) (t : RNs) :
+    (renderToks st .shell t).filterMap Tok.vis = visible (fun _ => false) st t := (visibleList_shell st t).symm
+
+/-- What "shell + fragments" means at tree level. The shell is the shell rendering of the whole tree, the
+fragment of `k` the shell rendering of the content of `k` (`regionOf w k`); both contain, for every
+boundary `j` nested directly in them, a slot (`Tok.slot j`, showing the fallback). For every reachable world
+and every set `sh` of boundaries, `visible sh` of the tree — and of every boundary's content — is its shell
+rendering with slot `j` replaced by `visible sh` of the content of `j` if `sh j` (that is what applying the
+fragment of `j` does), and left as the fallback otherwise. -/
+theorem C13_page_from_fragments {m vs w} (h : Reach m vs w) (sh : Nat → Bool) :
+    let slot := fun j => if sh j then visible sh w.st (regionOf w j) else ["fb"]
+    visible sh w.st w.tree = fillSlots slot (renderToks w.st .shell w.tree) ∧
+    ∀ k c, findSuspList k w.tree = some c →
+      visible sh w.st c = fillSlots slot (renderToks w.st .shell c) := by
+  intro slot
+  have hnd : (suspKeys w.tree).Nodup := by
+    rw [List.nodup_iff_count]; intro x; rw [h.inv.susps x]; split <;> omega
+  have hreg : ∀ y ∈ allSusps w.tree, regionOf w y.1 = y.2 := fun y hy => by
+    rw [regionOf, findSuspList_of_all w.tree hnd y.1 y.2 hy]; rfl
+  refine ⟨?_, fun k c hc => ?_⟩
+  · rw [← visSub_toks]
+    exact visible_visSub sh w.st (regionOf w) w.tree (fun y hy => hreg y (shell_sub_all _ y hy))
+  · rw [← visSub_toks]
+    refine visible_visSub sh w.st (regionOf w) c (fun y hy => hreg y ?_)
+    exact all_trans w.tree k c (findSuspList_mem_all k w.tree c hc) y (shell_sub_all _ y hy)
+
+/-- In a reachable world in which every boundary has been sent, the page assembled from the fragments
+(`sent` boundaries show their content) shows what the final rendering shows. -/
+theorem C13_stream_equals_blocking {m vs w} (h : Reach m vs w) (hall : ∀ b ∈ w.st.bds, b.sent = true) :
+    visible (fun k => sentI w (k - 1)) w.st w.tree = visible (fun _ => true) w.st w.tree := by
+  apply visible_congr
+  intro k hk
+  have hpos := List.count_pos_iff.mpr hk
+  rw [h.inv.susps k] at hpos
+  have hb := h.inv.bdsLen
+  have hk' : 1 ≤ k ∧ k < w.st.nextSusp := by split at hpos <;> omega
+  have hlt : k - 1 < w.st.bds.length := by omega
+  rw [sentI, List.getElem?_eq_getElem hlt]
+  simpa using hall _ (List.getElem_mem hlt)
+
+/-- the same for the streaming run of the driver: if at the end every boundary has been emitted, the page
+shows the final rendering of the last world -/
+theorem C13_stream_run_equals_blocking (vs : AVs) (es : List Ev)
+    (hall : ∀ k, 1 ≤ k → k ≤ (streamAll vs es).1.st.bds.length → k ∈ (streamAll vs es).2) :
+    visible (fun k => decide (k ∈ (streamAll vs es).2)) (streamAll vs es).1.st (streamAll vs es).1.tree =
+      visible (fun _ => true) (streamAll vs es).1.st (streamAll vs es).1.tree := by
+  have h := (streamAll_reachS vs es).reach
+  apply visible_congr
+  intro k hk
+  have hpos := List.count_pos_iff.mpr hk
+  rw [h.inv.susps k] at hpos
+  have hb := h.inv.bdsLen
+  have hk' : 1 ≤ k ∧ k < (streamAll vs es).1.st.nextSusp := by split at hpos <;> omega
+  simpa using hall k hk'.1 (by omega)
+
+/-! ### the statements are not vacuous: concrete runs -/
+
+/-- `<div><Suspense><p/><Async task=0><span>t0</span>{res 5}</Async></Suspense><b/></div>` -/
+def exCountView : AVs :=
+  avs [.el 0 (avs [.susp (avs [.el 1 .nil, .acomp 0 (avs [.el 2 (avs [.text 0]), .res 5])]), .el 3 .nil])]
+
+-- one pending body under boundary 1; when it is built it reads the loading resource 5: a guard replaces it;
+-- when the resource delivers nothing is left and the blocking render returns
+example : (World.start .block exCountView).st.bds.map (·.count) = [1] ∧
+    (World.start .block exCountView).st.pend.map (·.ctx) = [some 1] ∧
+    globalLoading (World.start .block exCountView).st = true := by decide +kernel
+example : (run (World.start .block exCountView) [.c 0]).st.bds.map (·.count) = [1] ∧
+    (run (World.start .block exCountView) [.c 0]).st.pend.length = 0 ∧
+    (run (World.start .block exCountView) [.c 0]).st.guards = [(5, 1)] := by decide +kernel
+example : (run (World.start .block exCountView) [.c 0, .r 5]).st.bds.map (·.count) = [0] ∧
+    globalLoading (run (World.start .block exCountView) [.c 0, .r 5]).st = false := by decide +kernel
+
+-- a body created after its task completed resumes in the same `settle` (second round)
+example : (run (World.start .block (avs [.acomp 0 (avs [.acomp 0 (avs [.text 1])])])) [.c 0]).st.pend.length = 0 ∧
+    (World.start .block (avs [.acomp 0 (avs [.acomp 0 (avs [.text 1])])])).st.pend.length = 1 := by
+  decide +kernel
+
+/-- three nested boundaries, each waiting for its own task -/
+def exStreamView : AVs :=
+  avs [.susp (avs [.acomp 0 (avs [.text 0]),
+    .susp (avs [.acomp 1 (avs [.text 1]), .susp (avs [.acomp 2 (avs [.text 2])])])])]
+
+-- tasks 1 and 2 complete first: nothing can be sent (the outer boundary is still loading); when task 0
+-- completes the three fragments go out, parents first
+example : (streamAll exStreamView [.c 1, .c 2]).2 = [] := by decide +kernel
+example : (streamAll exStreamView [.c 1, .c 2, .c 0]).2 = [1, 2, 3] := by decide +kernel
+example : (streamStep (streamAll exStreamView [.c 1, .c 2]).1 (.c 0)).2.length = 3 := by decide +kernel
+example : (streamAll exStreamView [.c 1, .c 2, .c 0]).1.st.bds.map (·.parent) = [none, some 1, some 2] ∧
+    (streamAll exStreamView [.c 1, .c 2, .c 0]).1.st.bds.map (·.sent) = [true, true, true] ∧
+    (streamAll exStreamView [.c 1, .c 2, .c 0]).1.closed = true := by decide +kernel
+-- in the other order each fragment goes out with its own event
+example : (streamAll exStreamView [.c 0]).2 = [1] ∧ (streamAll exStreamView [.c 0, .c 1]).2 = [1, 2] ∧
+    (streamAll exStreamView [.c 0, .c 1, .c 2]).2 = [1, 2, 3] := by decide +kernel
+
+-- after task 0 boundary 1 is not loading: its fragment is the same two events later (`C13_fragment_stable`)
+example : loading (run (World.start .stream exStreamView) [.c 0]).st 4 1 = false ∧
+    regionStr (run (World.start .stream exStreamView) [.c 0, .c 1, .c 2]) 1 =
+      regionStr (run (World.start .stream exStreamView) [.c 0]) 1 := by decide +kernel
+-- while boundary 3, whose own counter is 0 after task 2, still counts as loading because of its ancestors
+example : loading (run (World.start .stream exStreamView) [.c 2]).st 4 3 = true := by decide +kernel
+
+-- what the client sees: the shell shows the outer fallback, the page with all fragments the three texts
+example : visible (fun _ => false) (streamAll exStreamView [.c 1, .c 2, .c 0]).1.st
+      (streamAll exStreamView [.c 1, .c 2, .c 0]).1.tree = ["fb"] ∧
+    visible (fun k => decide (k ∈ (streamAll exStreamView [.c 1, .c 2, .c 0]).2))
+      (streamAll exStreamView [.c 1, .c 2, .c 0]).1.st (streamAll exStreamView [.c 1, .c 2, .c 0]).1.tree =
+      ["t0", "t1", "t2"] ∧
+    visible (fun k => decide (k ∈ (streamAll exStreamView [.c 0, .c 1]).2))
+      (streamAll exStreamView [.c 0, .c 1]).1.st (streamAll exStreamView [.c 0, .c 1]).1.tree =
+      ["t0", "t1", "fb"] := by decide +kernel
 
 end SycVerif.Assr
